@@ -396,7 +396,12 @@ class BVReduceBW:
         bws = sorted(set([bw - 1, bw // 2, 2, 1]))
         for b in bws:
             if 0 < b < bw:
-                varname = '_{}'.format(node[1])
+                if is_piped_symbol(node[1]):
+                    # keep the quotes around the whole symbol, _|x y| is no
+                    # valid symbol
+                    varname = '|_{}'.format(node[1].data[1:])
+                else:
+                    varname = '_{}'.format(node[1])
                 var = Node('declare-const', varname, Node('_', 'BitVec', b))
                 zext = Node('define-fun', node[1], (), get_sort(node[1]),
                             Node(Node('_', 'zero_extend', bw - b), varname))
